@@ -39,7 +39,11 @@ var (
 	PDeep    = Profile{MaxDepth: 5, MaxFan: 3, Scalars: ScalarsSmall, Keys: KeysSmall, PArr: 0.6, PLeaf: 0.3, Empty: true}
 	PObjects = Profile{MaxDepth: 4, MaxFan: 4, Scalars: ScalarsSmall, Keys: KeysSmall, PArr: 0.2, PLeaf: 0.35, Empty: true}
 	PNumbers = Profile{MaxDepth: 3, MaxFan: 4, Scalars: ScalarsNumbers, Keys: KeysSmall, PArr: 0.55, PLeaf: 0.4, Empty: true}
-	PHostile = Profile{MaxDepth: 3, MaxFan: 4, Scalars: ScalarsSmall, Keys: KeysHostile, PArr: 0.45, PLeaf: 0.35, Empty: true}
+	// values whose TEXT looks like JSON / YAML syntax: a reader or writer that pre- or post-processes text
+	// with patterns (trailing commas, comments, escapes, number spellings) rewrites them
+	ScalarsSyntaxy = []any{",]", ", }", "[1,2,]", "{\"a\":1,}", "a,]b", "//c", "/*c*/", "#c", "\\u0026", "1e+06", "key: value", "- item", "<<: x", "null", "~", "'q'", "\"q\"", 1.0, true}
+	PSyntaxy       = Profile{MaxDepth: 3, MaxFan: 4, Scalars: ScalarsSyntaxy, Keys: []string{"a", "b", ",]", "k,", "#c", "x: y"}, PArr: 0.5, PLeaf: 0.4, Empty: true}
+	PHostile       = Profile{MaxDepth: 3, MaxFan: 4, Scalars: ScalarsSmall, Keys: KeysHostile, PArr: 0.45, PLeaf: 0.35, Empty: true}
 )
 
 func (p Profile) With(f func(*Profile)) Profile { f(&p); return p }
